@@ -17,14 +17,27 @@ Engine: E5 (production SFTPServer / SFTPClient over a socketpair).
     A read-count guard (more than READ_LIMIT handle reads while serving ONE request) turns an
     endless server-side read loop into a verdict; a thread stuck anywhere else is located by its
     stack and released with an asynchronous exception.
+    Fault plans (vlib.sftpenv on_call / on_read / on_write): the served handle and the server
+    interface fail at generated requests - a packet may carry "fault": backend call number `skip`
+    made while THAT request is served (handle close / stat / chattr / read / write, interface
+    open / list_folder / stat / lstat / chattr / remove / rename / mkdir / ...) raises OSError(errno)
+    or returns an SFTP error code; a case may also carry "faults": call number n of one named
+    operation fails. About half of the handle fields refer to a handle the stream has opened
+    before ("live" references), so that requests do reach the served handle. Same oracle.
 (B) client: single-threaded programs on one SFTPClient interleave pipelined writes (bursts of
     1..250 requests on up to two files), set_pipelined switches, stat / lstat / listdir / fstat,
     reads and prefetched reads on another file, and closes. The server is fault free.
+    Read-ahead programs ("focus" readahead / mixed): episodes on the read file - open + prefetch(),
+    prefetch() or a readv() whose results are only partly taken (optionally letting the library's
+    helper thread send its requests first: schedule dimension), then SFTPFile.truncate / chmod /
+    utime / stat / seek / read / yield on that file while read-ahead replies are outstanding.
     Oracle: every API call returns or raises. "Blocks forever" is decided by a deadlock proof
     (client parked in recv, server idle in recv, every request byte consumed, every response
     byte delivered, as many responses sent as requests processed, no other thread alive, stable
-    for 0.5 s) or, failing that, by 20 s without return and without traffic on the link; the case is re-run twice and reported only if
-    it blocks all three times. The channel is then closed so that no thread stays behind.
+    for 0.5 s), or by 6 s without return on a settled link (every request byte consumed and answered,
+    server idle in recv, no other thread alive, the application thread neither sends nor reads: it spins),
+    or, failing that, by 20 s without return and without traffic on the link; the case is re-run twice
+    and reported only if it blocks all three times. The channel is then closed so that no thread stays behind.
 
 Known defects are detected at start-up with their minimal reproductions (the committed replays);
 while one is present the generator steers around it (ctx.exclude) so that the search goes on:
@@ -50,9 +63,11 @@ RULE = (
     "handles hx1..hx8 / garbage, path grammar incl. '..', NUL, non-UTF-8, long names, attrs with every flag, field "
     "encodings truncated or with oversized length prefixes, extended requests check-file / posix-rename / unknown; "
     "non-trivial = stream contains an unknown command, an extended request, a mutated encoding or a handle that "
-    "cannot be valid at that point. (B) hypothesis-generated single-threaded client programs mixing pipelined "
-    "write bursts with other requests; non-trivial = some non-write request was issued while pipelined writes were "
-    "unacknowledged. distinct = SHA-1 of the case"
+    "cannot be valid at that point, or a backend fault (served handle / interface call raising OSError or returning an "
+    "error code at a generated request) fired. (B) hypothesis-generated single-threaded client programs mixing pipelined "
+    "write bursts with other requests, and read-ahead episodes (prefetch / partly consumed readv, then truncate / chmod / "
+    "utime / stat / seek / read on the same file); non-trivial = some non-write request was issued while pipelined writes "
+    "were unacknowledged, or a file operation was issued while read-ahead replies were outstanding. distinct = SHA-1 of the case"
 )
 
 # None = decide automatically from the minimal reproduction; True / False = force
@@ -340,7 +355,8 @@ class Guard:
         for f in faults or ():
             for k in range(int(f["n"]), int(f["n"]) + int(f.get("count", 1))):
                 self.plan.setdefault((f["op"], k), (f["act"][0], int(f["act"][1])))
-        self.faults_fired = []  # "op:kind"
+        self.faults_fired = []  # (request index, "op:kind")
+        self.backend = set()  # (request index, op): backend calls made while serving that request
 
     def begin_request(self, idx):
         self.reads = 0
@@ -351,9 +367,12 @@ class Guard:
         act = self.at.get((self.req, self.calls))
         if act is None:
             act = self.plan.get((op, n))
+        if act is not None and op == "handle.close" and act[0] == "error":
+            act = ("raise", 5)  # close() has no return value: the only way for it to fail is to raise (here EIO)
         self.calls += 1
+        self.backend.add((self.req, op))
         if act is not None:
-            self.faults_fired.append("%s:%s" % (op, act[0]))
+            self.faults_fired.append((self.req, "%s:%s" % (op, act[0])))
         return act
 
     def on_call(self, where, op, n, args):
@@ -575,7 +594,9 @@ def _serve(ctx, case, forced):
         "responses": responses,
         "verdict": verdict,
         "guard_fired": guard.fired,
-        "faults_fired": sorted(set(guard.faults_fired)),
+        # by request: "close>handle.close:raise" (calls made after the last request - session teardown - are left out)
+        "faults_fired": sorted(set("%s>%s" % (req_name(sent[i][0]), f) for i, f in guard.faults_fired if 0 <= i < len(sent) and not (i == len(sent) - 1 and sent[i][1] == S2))),
+        "backend": sorted(set("%s>%s" % (req_name(sent[i][0]), op) for i, op in guard.backend if 0 <= i < len(sent) and not (i == len(sent) - 1 and sent[i][1] == S2))),
         "log_abort": log_abort,
         "thread_exc": thread_exc,
         "requests": stats["requests"],
@@ -591,6 +612,7 @@ def _judge_server(ctx, case, run):
     classes = ["A:stream"] + sorted(set("A:req:" + req_name(t) for t, _, _ in sent[:-2] or sent))
     classes += sorted(set("A:resp:%s" % t for t, _ in responses))
     classes += ["A:fault:" + f for f in run.get("faults_fired", ())]
+    classes += ["A:backend:" + f for f in run.get("backend", ()) if f.split(">")[1].startswith("handle.")]
     if case.get("faults") or any(p.get("fault") for p in case["pkts"]):
         classes.append("A:stream-with-fault-plan")
     ctx.case(case, nontrivial, classes)
@@ -693,7 +715,7 @@ def _judge_server(ctx, case, run):
 
 PATHS = ["/r0", "/", "/w0", "/w1", "/nope", "/d"]
 RMODES = ["rb", "r+b"]
-R_FILE_OPS = ("rprefetch", "rreadv", "rtruncate", "rchmod", "rutime", "rfstat", "rseek")
+R_FILE_OPS = ("rprefetch", "rreadv", "rtruncate", "rchmod", "rutime", "rfstat", "rseek", "ryield")
 QUIET_BOUND_S = 6.0
 
 
@@ -864,6 +886,8 @@ def run_client_once(ctx, case, observe):
             f = rf[0]
             if f is None:
                 return None
+            if k == "ryield":
+                return lambda: let_readahead_go(f, op[1])
             if k == "rseek":
                 off, whence = op[1], op[2]
                 base = 0 if whence == 0 else (f.tell() if whence == 1 else os.path.getsize(os.path.join(root, "r0")))
@@ -1324,7 +1348,7 @@ _fault_act = st.one_of(
     st.tuples(st.just("error"), st.sampled_from([2, 3, 4, 8, 1])),
 )
 # per packet: the backend call number `skip` made while that request is served fails
-packet_fault = st.builds(lambda skip, act: {"skip": skip, "act": list(act)}, st.sampled_from([0, 0, 0, 0, 1, 2]), _fault_act)
+packet_fault = st.builds(lambda skip, act: {"skip": skip, "act": list(act)}, st.sampled_from([0, 0, 0, 0, 0, 1, 2]), _fault_act)
 fault_plans = st.one_of(st.just([]), st.just([]), st.lists(fault_st, min_size=1, max_size=4))
 
 
@@ -1395,41 +1419,50 @@ client_op = st.one_of(
 # operations on the read file /r0 (100000 bytes = 4 read-ahead requests), which may have prefetch / readv replies outstanding
 _maxconc = st.sampled_from([None, None, 1, 2])
 _rv_chunk = st.tuples(st.sampled_from([0, 1, 1000, 32768, 40000, 65536, 90000, 99999, 100000, 120000]), st.sampled_from([1, 100, 32768, 40000, 70000]))
-r_op = st.one_of(
-    st.tuples(st.just("ropen"), st.booleans(), _maxconc, st.integers(0, 1), st.booleans()),
-    st.tuples(st.just("rprefetch"), _maxconc, st.booleans()),
-    st.tuples(st.just("rreadv"), st.lists(_rv_chunk, min_size=1, max_size=5), st.integers(0, 5), _maxconc, st.booleans()),
-    st.tuples(st.just("rread"), st.sampled_from([1, 100, 32768, 50000, 100000, -1])),
-    st.tuples(st.just("rread"), st.sampled_from([1, 1, 10, 100, 1000])),
-    st.tuples(st.just("rtruncate"), st.sampled_from([0, 1000, 50000, 100000, 150000])),
-    st.tuples(st.just("rchmod"), st.sampled_from([0o600, 0o644, 0o640])),
-    st.tuples(st.just("rutime"), st.sampled_from([None, (1, 2), (1700000000, 1700000001)])),
-    st.tuples(st.just("rfstat")),
-    st.tuples(st.just("rseek"), st.sampled_from([0, 1, 1000, 32768, 50000, 99999, 100000, 120000, -10, -1000]), st.sampled_from([0, 0, 1, 2])),
-    st.tuples(st.just("rclose")),
-)
+_o_ropen = st.tuples(st.just("ropen"), st.booleans(), _maxconc, st.integers(0, 1), st.booleans())
+_o_ropen_pf = st.tuples(st.just("ropen"), st.just(True), _maxconc, st.integers(0, 1), st.booleans())
+_o_rprefetch = st.tuples(st.just("rprefetch"), _maxconc, st.booleans())
+_o_rreadv = st.tuples(st.just("rreadv"), st.lists(_rv_chunk, min_size=1, max_size=5), st.integers(0, 5), _maxconc, st.booleans())
+_o_rread = st.one_of(st.tuples(st.just("rread"), st.sampled_from([1, 100, 32768, 50000, 100000, -1])), st.tuples(st.just("rread"), st.sampled_from([1, 1, 10, 100, 1000])))
+_o_rtruncate = st.tuples(st.just("rtruncate"), st.sampled_from([0, 1000, 50000, 100000, 150000]))
+_o_rchmod = st.tuples(st.just("rchmod"), st.sampled_from([0o600, 0o644, 0o640]))
+_o_rutime = st.tuples(st.just("rutime"), st.sampled_from([None, (1, 2), (1700000000, 1700000001)]))
+_o_rfstat = st.tuples(st.just("rfstat"))
+_o_rseek = st.tuples(st.just("rseek"), st.sampled_from([0, 1, 1000, 32768, 50000, 99999, 100000, 120000, -10, -1000]), st.sampled_from([0, 0, 1, 2]))
+_o_ryield = st.tuples(st.just("ryield"), _maxconc)
+_o_rclose = st.tuples(st.just("rclose"))
+r_op = st.one_of(_o_ropen, _o_rprefetch, _o_rreadv, _o_rread, _o_rtruncate, _o_rchmod, _o_rutime, _o_rfstat, _o_rseek, _o_ryield, _o_rclose)
 _session_op = st.one_of(st.tuples(st.just("stat"), st.integers(0, 5)), st.tuples(st.just("listdir")))
+# A read-ahead episode: something starts read-ahead on the file (open + prefetch, prefetch, a readv whose results are only
+# partly taken), then 1-4 operations on that file follow.  Any request that waits for its own reply consumes the
+# read-ahead replies queued before it, so it is the operation right after the start (or after a `ryield` with capped
+# concurrency, when the helper thread sends the next requests) that meets outstanding replies.
+_ra_start = st.one_of(_o_ropen_pf, _o_rprefetch, _o_rreadv)
+_ra_follow = st.one_of(_o_rtruncate, _o_rchmod, _o_rutime, _o_rfstat, _o_rseek, _o_rread, _o_ryield)
+_ra_episode = st.tuples(_ra_start, st.lists(_ra_follow, min_size=1, max_size=4), st.sampled_from([[], [], [("rclose",)]])).map(lambda e: [e[0]] + e[1] + e[2])
+_ra_part = st.one_of(_ra_episode, _ra_episode.map(lambda v: v), st.lists(st.one_of(r_op, _session_op), min_size=1, max_size=3))
+_ra_program = st.lists(_ra_part, min_size=1, max_size=4).map(lambda parts: [o for part in parts for o in part])
 _foci = st.sampled_from(["writes", "writes", "readahead", "readahead", "mixed"])
 _ops_by_focus = {
     "writes": st.lists(client_op, min_size=1, max_size=14),
-    "readahead": st.lists(st.one_of(r_op, r_op.map(lambda v: v), r_op.map(lambda v: v), r_op.map(lambda v: v), _session_op), min_size=1, max_size=14),
-    "mixed": st.lists(st.one_of(client_op, r_op), min_size=1, max_size=14),
+    "readahead": _ra_program,
+    "mixed": st.lists(st.one_of(client_op.map(lambda o: [o]), _ra_episode), min_size=1, max_size=8).map(lambda parts: [o for part in parts for o in part]),
 }
 _whead = st.sampled_from([0, 0, -1])
 _zero3 = st.integers(0, 3)
 
 
 @st.composite
-def client_case_st(draw):
+def client_case_st(draw, foci=None):
     """focus = which part of the client a program leans on: pipelined writes (with other requests in between), read-ahead
     (prefetch / readv on a file, then truncate / chmod / utime / stat / seek / reads on that file while replies are
     outstanding), or both."""
-    focus = draw(_foci)
+    focus = draw(foci if foci is not None else _foci)
     head = []
     if focus != "readahead" and draw(_zero3):
         head.append(["wopen", 0, True, draw(_whead)])
-    if focus != "writes" and draw(_zero3):
-        head.append(["ropen", True, draw(_maxconc), draw(_zero3) % 2, draw(_zero3) > 0])
+    if focus != "writes" and draw(_zero3) == 0:
+        head.append(["ropen", False, None, draw(_zero3) % 2, False])
     ops = head + [list(o) for o in draw(_ops_by_focus[focus])]
     return {"kind": "client", "ops": ops, "focus": focus}
 
@@ -1462,7 +1495,9 @@ def run(ctx):
             execute(ctx, probe)
     ctx.note("steering", {k: _excluded(k) for k in EXCLUDE})
     _explore(ctx, server_case_st(max_body=ctx.scale(25, 57)), lambda c: execute(ctx, c), ctx.scale(450, 5000))
-    _explore(ctx, client_case_st(), lambda c: None if _client_blocked[0] else execute(ctx, c), ctx.scale(120, 1000), shrink=False, seed_offset=1)
+    body = lambda c: None if _client_blocked[0] else execute(ctx, c)  # noqa: E731
+    _explore(ctx, client_case_st(st.just("writes")), body, ctx.scale(120, 1000), shrink=False, seed_offset=1)
+    _explore(ctx, client_case_st(st.sampled_from(["readahead", "readahead", "mixed"])), body, ctx.scale(110, 900), shrink=False, seed_offset=2)
 
 
 def replay(ctx, case):
